@@ -190,10 +190,19 @@ impl Console for SimConsole {
             self.push(Event::Fuel);
             std::panic::resume_unwind(Box::new(SimSpin));
         }
-        self.push(Event::Rec { origin, line, text: text.to_owned() });
+        self.push(Event::Rec { origin, line, text: text.to_owned(), err: false });
         if let Err(e) = self.wr.write_all(text.as_bytes()) {
             panic!("failed printing to stdout: {}", e);
         }
+    }
+
+    fn emit_err(&mut self, module: &'static str, line: u32, text: &str) {
+        // stderr is unbuffered and not under fault injection; it shares the progress guard
+        self.recs_since_progress += 1;
+        if self.recs_since_progress > crate::world::MAX_RECORDS_PER_STATEMENT {
+            std::panic::resume_unwind(Box::new(SimSpin));
+        }
+        self.push(Event::Rec { origin: origin_of(module), line, text: text.to_owned(), err: true });
     }
 
     fn flush(&mut self) -> io::Result<()> {
